@@ -26,6 +26,12 @@ PAIRS = [
     ("fooBar", "fooBaz", True),
     ("alpha", "beta", False),
 ]
+# variables only: a variable named like a local of the generated method next to its underscore twin (the local has to
+# step aside for BOTH); control pairs - nothing collides after mangling, so both must stay usable
+LOCAL_PAIRS = [("query", "_query", False), ("variables", "_variables", False), ("response", "_response", False),
+               ("data", "_data", False), ("query", "__query", False), ("_query", "__query", False)]
+# response keys that are aliases of one field / of __typename (control: distinct keys, distinct Python names)
+ALIAS_CASES = [("__typename", "kind", "__typename"), ("kind", "sort", "__typename"), ("x", "y", "x"), ("first", "second", "x")]
 ENUM_PAIRS = [("class", "class_"), ("None", "None_"), ("RED", "GREEN"), ("_INTERNAL", "INTERNAL"), ("mro", "mro_"), ("_order_", "ok"),
               ("fooBar", "foo_bar"), ("A1", "a1")]
 
@@ -47,6 +53,12 @@ def build(scope, a, b, snake):
     elif scope == "enum":
         sdl = f"type Query {{ e: E }}\nenum E {{ {a} {b} }}\n"
         q = "query Q { e }\n"
+    elif scope == "aliases":
+        field = snake                      # third component: the field both keys select
+        cfg = {"convert_to_snake_case": False, "async_client": False}
+        sdl = "type Query { t: T }\ntype T { x: String }\n"
+        sel = " ".join(k if k == field else f"{k}: {field}" for k in (a, b))
+        q = f"query Q {{ t {{ {sel} }} }}\n"
     return Scenario(seed=0, sdl=sdl, queries=q, config=cfg, features=("c18", scope, a, b))
 
 
@@ -65,6 +77,11 @@ result = m.model_dump(by_alias=True, exclude_unset=True) == {A: 1, B: 2}
 E = pkg.E
 result = sorted(x.value for x in E) == sorted([A, B])
 """,
+    "aliases": """
+m = mods["q"].Q.model_validate({"t": {A: "T", B: "T"}})
+d = m.model_dump(by_alias=True, exclude_unset=True)
+result = d == {"t": {A: "T", B: "T"}} and len(type(m.t).model_fields) == 2
+""",
 }
 
 
@@ -75,14 +92,18 @@ def run(ctx):
     for scope in ("selection", "input", "variables", "operations"):
         for a, b, snake in PAIRS:
             cases.append((scope, a, b, snake))
+    for a, b, snake in LOCAL_PAIRS:
+        cases.append(("variables", a, b, snake))
     for a, b in ENUM_PAIRS:
         cases.append(("enum", a, b, False))
+    for a, b, field in ALIAS_CASES:
+        cases.append(("aliases", a, b, field))
     # model prediction: do the two names collide in this scope?
     scope_flags = {"selection": (True, True), "input": (True, True), "variables": (False, False),
                    "operations": (False, False)}
     cmds = []
     for scope, a, b, snake in cases:
-        if scope == "enum":
+        if scope in ("enum", "aliases"):
             continue
         trim, res = scope_flags[scope]
         sn = True if scope == "operations" else snake
@@ -95,6 +116,8 @@ def run(ctx):
     for scope, a, b, snake in cases:
         if scope == "enum":
             pa, pb = enum_model[a], enum_model[b]
+        elif scope == "aliases":
+            pa, pb = ("typename__" if a == "__typename" else a), ("typename__" if b == "__typename" else b)
         else:
             pa, pb = outs[i], outs[i + 1]
             i += 2
